@@ -82,8 +82,11 @@ type SignCfg struct {
 	// only (valid shares, incomplete list) — a Byzantine but properly signed contribution
 	Truncating []int
 	// Failing participants' operators report a signing error instead of partial signatures
-	Failing   []int
-	MaxStates int
+	Failing []int
+	// FailingFirst participants report a signing error for the FIRST batch only (a machine that
+	// was not ready yet) and answer every later batch correctly
+	FailingFirst []int
+	MaxStates    int
 }
 
 func (c SignCfg) String() string {
@@ -94,6 +97,9 @@ func (c SignCfg) String() string {
 	extra := ""
 	if len(c.Truncating) > 0 {
 		extra = fmt.Sprintf(" truncating=%v", c.Truncating)
+	}
+	if len(c.FailingFirst) > 0 {
+		extra += fmt.Sprintf(" failing-first-batch=%v", c.FailingFirst)
 	}
 	if len(c.Failing) > 0 {
 		extra += fmt.Sprintf(" failing=%v", c.Failing)
@@ -238,8 +244,13 @@ func (sw *SignWorld) Model(cfg SignCfg, check func(k *worldx.Worker, s *worldx.S
 						mutate = truncatePartials
 					}
 					if contains(cfg.Failing, i) {
-						pid := i
-						mutate = func(res *types.Operation) { reportSigningError(res, pid) }
+						mutate = machineSigningError(k, i, op)
+					}
+					if contains(cfg.FailingFirst, i) {
+						var pl struct{ BatchID string }
+						if json.Unmarshal(op.Payload, &pl) == nil && pl.BatchID == cfg.Batches[0].ID {
+							mutate = machineSigningError(k, i, op)
+						}
 					}
 					c, apiErr, err := k.OperateOp(s, i, op.ID, mutate)
 					if err != nil {
@@ -266,6 +277,20 @@ func (sw *SignWorld) Model(cfg SignCfg, check func(k *worldx.Worker, s *worldx.S
 			}
 			return out, nil
 		},
+	}
+}
+
+// machineSigningError replaces a signing result by the error report machine i itself writes when
+// its signing handler fails on op (the product's own error writer, reached through an accessor).
+func machineSigningError(k *worldx.Worker, i int, op *types.Operation) func(res *types.Operation) {
+	return func(res *types.Operation) {
+		er, err := k.W.Airs[i].M.VerifErrorResult(*op, errors.New("cannot sign"))
+		if err != nil || len(er.ResultMsgs) == 0 {
+			reportSigningError(res, i)
+			return
+		}
+		res.Event = er.Event
+		res.ResultMsgs = er.ResultMsgs
 	}
 }
 
